@@ -26,7 +26,7 @@ RULE = ("expm part: A (n = 1..10) from 13 structure families (dense, symmetric n
         "scaling / dispatcher switch (1e-6 ... 1e3), h drawn from 6 decades; each executed "
         "through expmint (geti2 False/True), getEPQ1, getEPQ2, getEPQ_pow, getEPQ with "
         "order {0,1} x B {None, n x r, half}.  ss part: random stable SISO/MIMO systems "
-        "(cond(eigvecs) <= 1e4, |lambda| h < pi/2), 4 methods x prewarp {0, w0}.  "
+        "(cond(eigvecs) <= 1e4, |lambda| h < 2.9 with a quarter above pi/2), 4 methods x prewarp {0, None, w0}, d2c with the other prewarp.  "
         "distinct = distinct (family, n, norm, h, generator index) descriptors; "
         "non-trivial = A != 0 and finite reference (expm), n >= 1 states with non-zero "
         "B, C (ss)")
@@ -751,7 +751,7 @@ METHODS = ["zoh", "zoha", "foh", "tustin"]
 
 
 def make_system(r):
-    """Random stable MIMO system with cond(eigvecs) <= 1e4 and max|lambda| h < pi/2.
+    """Random stable MIMO system with cond(eigvecs) <= 1e4 and max|lambda| h < 2.9.
 
     Returns dict(A, B, C, D, h, kind, theta, condV)."""
     import numpy as np
@@ -809,6 +809,9 @@ def make_system(r):
             if d.min() < 1e-3 * np.abs(ev).max():
                 continue
         theta = float(np.exp(r.uniform(np.log(0.003), np.log(1.5))))
+        if r.random() < 0.25:
+            # z-plane poles with negative real part: Im(lambda) h in (pi/2, pi)
+            theta = float(r.uniform(1.6, 2.9))
         h = theta / float(np.abs(ev).max())
         B = r.standard_normal((n, nin))
         C = r.standard_normal((nout, n))
@@ -1307,6 +1310,35 @@ def _tustin_checks(sh, S, h, prewarp, Zp, r, case, tags, ssmodel):
         sh.check_close(f"d2c:tustin:{nm}", got[j], want[j], t, case, tags)
         sh.check_close(f"roundtrip:tustin:{nm}", got[j], orig[j],
                        t + 10.0 * (rho / 1e-13) * sg[j] + _tol(0.0, orig[j]), case, tags)
+    # ---- d2c with ANOTHER prewarp than the one the discrete model was made with: the
+    # documented formula takes k from the argument, not from the stored attribute
+    if prewarp:
+        other = [0, None][int(r.integers(0, 2))]
+    else:
+        other = float(np.exp(r.uniform(np.log(0.05), np.log(0.9))) * math.pi / h)
+    k2 = tustin_k(h, other)
+    case2 = dict(case, d2c_prewarp=other)
+    try:
+        Sq = Zp.d2c("tustin", other)
+    except Exception as e:
+        sh.violation("exception:d2c", case2, {"exc": repr(e)[:300]},
+                     dict(tags, exc_type=type(e).__name__))
+        return
+    want2 = tustin_d2c_ref(Zt, k2)
+    sg2 = [0.0] * 4
+    for _ in range(3):
+        Zk = (_perturb_norm(Zt[0], r), _perturb(Zt[1], r), _perturb(Zt[2], r),
+              _perturb(Zt[3], r))
+        for Wk in (tustin_d2c_ref(Zt, k2, r), tustin_d2c_ref(Zk, k2)):
+            for j in range(4):
+                sg2[j] = max(sg2[j], float(np.max(np.abs(Wk[j] - want2[j]))))
+    got2 = (Sq.A, Sq.B, Sq.C, Sq.D)
+    sh.count("cell:d2c-other-prewarp:" + ("to-plain" if prewarp else "to-prewarped"))
+    for j, nm in enumerate("ABCD"):
+        t = _tol(sg2[j], want2[j])
+        if j == 3:
+            t += 1e-13 * float(np.max(np.abs(Zt[3])))
+        sh.check_close(f"d2c:tustin-other-prewarp:{nm}", got2[j], want2[j], t, case2, tags)
 
 
 # =====================================================================================
